@@ -390,6 +390,11 @@ class StmtMixin:
                 self.fields[fld] = z3.Const(self.fresh('hvF_' + fld), z3.ArraySort(Val, Val))
         if self.yielded is not None:
             self.yielded = SSeq(z3.Const(self.fresh('out'), SeqV), 'tuple')
+        for nm in sorted(names):
+            # whatever a variable holds at the loop head exists by then: it is none of the objects constructed afterwards
+            hv = fr.env.get(nm)
+            if isinstance(hv, SDyn):
+                self.assume(z3.Or(z3.Not(Val.is_VObj(hv.t)), Val.o(hv.t) > self.allocp))
         if alt == 0:
             i = z3.Int(self.fresh('i'))
             self.assume(z3.And(i >= 0, i < n))
@@ -454,4 +459,73 @@ class StmtMixin:
                     continue
             # bound reached: stop exploring this path (bounded check)
             raise PathEnd()
-        raise Unsupported('while loop with invariant: not implemented')
+        # inductive invariant: holds on entry; from an arbitrary state satisfying it, one iteration (test true) re-establishes
+        # it (break leaves the loop with the state at the break, return / raise leave the function); after the loop the
+        # invariant and the negated test hold.  Termination is not proved (partial correctness).
+        inv = spec['inv']
+        lab = f'loop{k}'
+
+        def inv_parts():
+            env = dict(fr.closure)
+            env.update(fr.env)
+            if self.yielded is not None:
+                env['_out'] = self.yielded
+            return self.eval_contract_conjuncts(inv, env)
+
+        def prove_inv(kind):
+            ps = inv_parts()
+            for j, pr in enumerate(ps):
+                self.prove(pr, kind, lab if len(ps) == 1 else f'{lab}.{j}', st.lineno, assume=(kind == 'inv-init'), focus=('inv', lab, j))
+
+        prove_inv('inv-init')
+        names, fields = self.modified_in(st.body)
+        names |= set(spec.get('modifies', []))
+        alt = self.choose(2)
+        types = spec.get('types', {})
+        for nm in sorted(names):
+            if nm in types:
+                fr.env[nm] = self.sym(types[nm], self.fresh('hv.' + nm), record=False)
+            elif nm in fr.env:
+                fr.env[nm] = self.havoc_like(fr.env[nm], nm)
+        for (on, fld) in sorted(fields):
+            o = fr.env.get(on)
+            if isinstance(o, SObj) and fld in self.heap[o.oid]:
+                self.heap[o.oid][fld] = self.havoc_like(self.heap[o.oid][fld], f'{on}.{fld}')
+        if spec.get('fields'):
+            a2 = z3.Int(self.fresh('alloc'))
+            self.assume(a2 <= self.allocp)
+            self.allocp = a2
+        for fld in spec.get('fields', []):
+            self.field_arr(fld)
+            self.fields[fld] = z3.Const(self.fresh('hvF_' + fld), z3.ArraySort(Val, Val))
+        for (on, fld) in sorted(fields):
+            if not isinstance(fr.env.get(on), SObj):
+                self.field_arr(fld)
+                self.fields[fld] = z3.Const(self.fresh('hvF_' + fld), z3.ArraySort(Val, Val))
+        if self.yielded is not None:
+            self.yielded = SSeq(z3.Const(self.fresh('out'), SeqV), 'tuple')
+        for nm in sorted(names):
+            # whatever a variable holds at the loop head exists by then: it is none of the objects constructed afterwards
+            hv = fr.env.get(nm)
+            if isinstance(hv, SDyn):
+                self.assume(z3.Or(z3.Not(Val.is_VObj(hv.t)), Val.o(hv.t) > self.allocp))
+        ps = inv_parts()
+        for j, pr in enumerate(ps):
+            if len(ps) > 1:
+                self.pc_tags[len(self.pc)] = ('inv', lab, j)
+            self.assume(pr)
+        test = self.truthy(self.eval(fr, st.test))
+        if alt == 0:
+            self.assume(test)
+            try:
+                self.exec_block(fr, st.body)
+            except ContinueEx:
+                pass
+            except BreakEx:
+                return      # leaves the loop with the current state
+            prove_inv('inv-pres')
+            raise PathEnd()
+        if z3.is_true(z3.simplify(test)):
+            raise PathEnd()     # `while True` is left only through break / return / raise
+        self.assume(z3.Not(test))
+        return
